@@ -101,7 +101,7 @@ Proof.
       unfold client_sresult, transport_cancel_err, client_submit_err; cbn [e_msg].
       rewrite contains_refl; reflexivity.
     + destruct (b (x :: r)) as [ids h|e] eqn:B; cbn [wire_sresult client_sresult]; [reflexivity|].
-      cbn [submit_helper]; rewrite (classify_wire T e Hdom); reflexivity.
+      unfold server_err; cbn [submit_helper]; rewrite (classify_wire T e Hdom); reflexivity.
 Qed.
 
 (* every error the DA interface defines is in the domain, for a usable table *)
@@ -276,7 +276,7 @@ Proof.
   intros T cancelled get ids; unfold client_get, honour_b; destruct cancelled.
   - cbn [transport_cancel_err e_msg]; rewrite contains_refl; exact I.
   - destruct (get ids) as [b|e]; [reflexivity|].
-    cbn [wire_err e_msg]; destruct (contains (e_msg e) (t_ctx T)); exact I.
+    unfold server_err; cbn [wire_err e_msg]; destruct (contains (e_msg e) (t_ctx T)); exact I.
 Qed.
 
 (* what the retrieve helper makes of a GetIDs answer does not change across wire and client — for EVERY error *)
@@ -290,7 +290,7 @@ Proof.
   - destruct g as [|ids ts|e]; cbn [wire_gresult client_getids].
     + cbn [retrieve_helper sent_err e_msg]; rewrite contains_refl; reflexivity.
     + destruct ids; [cbn [retrieve_helper sent_err e_msg]; rewrite contains_refl; reflexivity | reflexivity].
-    + assert (W : e_msg (wire_err e) = e_msg e) by reflexivity.
+    + unfold server_err. assert (W : e_msg (wire_err e) = e_msg e) by reflexivity.
       rewrite !W.
       destruct (contains (e_msg e) (txt T SNotFound)) eqn:C1; [cbn [retrieve_helper]; rewrite !W, C1; reflexivity|].
       destruct (contains (e_msg e) (txt T SFuture)) eqn:C2; [cbn [retrieve_helper]; rewrite !W, C1, C2; reflexivity|].
@@ -320,4 +320,214 @@ Proof.
   specialize (IH L (cur + b)%N); destruct (dummy_loop L (cur + b)%N r); cbn [option_map fst snd].
   - intros Sn; rewrite (IH Sn); reflexivity.
   - exact IH.
+Qed.
+
+(* ==== the error TEXT: what the backing DA says is what the node's helper is handed, whatever its length ==== *)
+
+(* ---- strings.Contains and concatenation ------------------------------------------------------------------- *)
+Lemma prefix_app_r : forall t s q, String.prefix t s = true -> String.prefix t (s ++ q)%string = true.
+Proof.
+  induction t as [|a t IH]; intros s q H; [destruct (s ++ q)%string; reflexivity|].
+  destruct s as [|c s]; cbn [String.prefix] in H; [discriminate|].
+  cbn [append String.prefix]. destruct (ascii_dec a c); [apply IH; exact H | discriminate].
+Qed.
+
+Lemma contains_nil_r : forall s, contains s "" = true.
+Proof. intros [|a r]; reflexivity. Qed.
+
+Lemma contains_app_r : forall s t q, contains s t = true -> contains (s ++ q)%string t = true.
+Proof.
+  induction s as [|a r IH]; intros t q H.
+  - cbn [contains] in H. rewrite orb_false_r in H. destruct t; [apply contains_nil_r | discriminate].
+  - cbn [contains] in H. cbn [append contains].
+    apply orb_true_iff in H; destruct H as [H|H]; apply orb_true_iff.
+    + left; exact (prefix_app_r t (String a r) q H).
+    + right; apply IH; exact H.
+Qed.
+
+Lemma contains_app_l : forall p s t, contains s t = true -> contains (p ++ s)%string t = true.
+Proof.
+  induction p as [|a r IH]; intros s t H; [exact H|].
+  cbn [append contains]. apply orb_true_iff; right; apply IH; exact H.
+Qed.
+
+(* a text is found inside whatever stands before and after it: no length, no position matters *)
+Lemma contains_mid : forall pre t post, contains (pre ++ t ++ post)%string t = true.
+Proof. intros; apply contains_app_l, contains_app_r, contains_refl. Qed.
+
+(* ---- submit -------------------------------------------------------------------------------------------------- *)
+(* [proxied_answer] is the answer [proxied_submit] classifies *)
+Lemma proxied_submit_answer : forall T max b cancelled sizes,
+  fst (proxied_submit T max b cancelled sizes) = submit_helper (length sizes) (proxied_answer T max b cancelled sizes).
+Proof.
+  intros; unfold proxied_submit, proxied_answer.
+  destruct (snd (filter_loop max 0 sizes)); [reflexivity|].
+  destruct (fst (filter_loop max 0 sizes)); [destruct sizes; reflexivity | reflexivity].
+Qed.
+
+Lemma direct_submit_answer : forall T b cancelled sizes,
+  fst (direct_submit T b cancelled sizes) = submit_helper (length sizes) (direct_answer T b cancelled sizes).
+Proof. reflexivity. Qed.
+
+(* the text [sent] by the backing DA and the text [arrived] at the helper: the same, except that a text
+   mentioning context.Canceled's is replaced by exactly that text (client.go lines 133 / 185 / 48 / 75) *)
+Definition carried (T : table) (sent arrived : string) : Prop :=
+  if contains sent (t_ctx T) then arrived = t_ctx T else arrived = sent.
+
+Lemma client_submit_err_text : forall T e, carried T (e_msg e) (e_msg (client_submit_err T (wire_err (server_err e)))).
+Proof.
+  intros T e; unfold carried, client_submit_err, server_err; cbn [wire_err e_msg].
+  destruct (contains (e_msg e) (t_ctx T)); reflexivity.
+Qed.
+
+(* what the client knows of the error that arrived is what its text says *)
+Lemma client_submit_err_is : forall T e s, contains (e_msg e) (t_ctx T) = false ->
+  is_sent (client_submit_err T (wire_err (server_err e))) s = contains (e_msg e) (txt T s).
+Proof.
+  intros T e s C; unfold client_submit_err, server_err; cbn [wire_err e_msg e_ctx]; rewrite C.
+  rewrite is_sent_filter. assert (N0 : is_sent (wire_err e) s = false) by reflexivity.
+  rewrite N0, orb_false_r; reflexivity.
+Qed.
+
+Lemma submit_text : forall T (b : backend) max sizes e,
+  (sumN sizes <= max)%N -> sizes <> [] -> b sizes = SFail e ->
+  answer_text (direct_answer T b false sizes) = Some (e_msg e)
+  /\ exists a, answer_text (proxied_answer T max b false sizes) = Some a /\ carried T (e_msg e) a.
+Proof.
+  intros T b max sizes e Hfit Hne Hb; split.
+  - unfold direct_answer, honour_s; rewrite Hb; reflexivity.
+  - unfold proxied_answer. rewrite (filter_fits sizes max 0) by lia; cbn [fst snd].
+    destruct sizes as [|x r]; [contradiction|].
+    unfold rpc_submit; cbn [fst]; rewrite Hb; cbn [wire_sresult client_sresult answer_text].
+    eexists; split; [reflexivity | apply client_submit_err_text].
+Qed.
+
+(* for a batch that is cut to its longest fitting prefix as well: the error is the backend's error for that prefix *)
+Lemma submit_text_prefix : forall T (b : backend) max sizes y t e,
+  filter_loop max 0 sizes = (y :: t, false) -> b (y :: t) = SFail e ->
+  exists a, answer_text (proxied_answer T max b false sizes) = Some a /\ carried T (e_msg e) a.
+Proof.
+  intros T b max sizes y t e Hf Hb; unfold proxied_answer; rewrite Hf; cbn [fst snd].
+  unfold rpc_submit; cbn [fst]; rewrite Hb; cbn [wire_sresult client_sresult answer_text].
+  eexists; split; [reflexivity | apply client_submit_err_text].
+Qed.
+
+(* ---- retrieve ------------------------------------------------------------------------------------------------- *)
+Lemma first_get_err_ext : forall g1 g2, (forall ids, g1 ids = g2 ids) -> forall bs, first_get_err g1 bs = first_get_err g2 bs.
+Proof.
+  intros g1 g2 H bs; induction bs as [|b r IH]; cbn [first_get_err]; [reflexivity|].
+  rewrite H, IH; reflexivity.
+Qed.
+
+Definition get_carried (T : table) (sent : string) : string :=
+  if contains sent (t_ctx T) then t_ctx T else (get_wrap ++ sent)%string.
+
+Lemma first_get_err_client : forall T get bs,
+  first_get_err (client_get T false get) bs = option_map (get_carried T) (first_get_err get bs).
+Proof.
+  intros T get bs; induction bs as [|b r IH]; cbn [first_get_err]; [reflexivity|].
+  unfold client_get at 1. destruct (get b) as [blobs|e]; [exact IH|].
+  unfold server_err, get_carried; cbn [wire_err e_msg option_map].
+  destruct (contains (e_msg e) (t_ctx T)); reflexivity.
+Qed.
+
+Lemma retrieve_text_direct : forall T g get, direct_retrieve_text T g get false = retrieve_text g get.
+Proof.
+  intros T g get; unfold direct_retrieve_text, honour_g; destruct g as [|ids ts|e]; cbn [retrieve_text]; reflexivity.
+Qed.
+
+(* GetIDs: the text arrives whole; only a cancellation that mentions neither "not found" nor "from the
+   future" is replaced by context.Canceled's text.  Get: the text arrives whole behind the client's
+   "failed to get blobs: ", or is replaced by context.Canceled's text. *)
+Lemma retrieve_text_proxied : forall T g get,
+  proxied_retrieve_text T g get false =
+  match g with
+  | GErr e => Some (if contains (e_msg e) (txt T SNotFound) then e_msg e
+                    else if contains (e_msg e) (txt T SFuture) then e_msg e
+                    else if contains (e_msg e) (t_ctx T) then t_ctx T else e_msg e)
+  | GNil | GRes [] _ => Some (txt T SNotFound)
+  | GRes ids _ => option_map (get_carried T) (first_get_err get (chunks 100 ids))
+  end.
+Proof.
+  intros T g get; unfold proxied_retrieve_text, rpc_getids; destruct g as [|ids ts|e]; cbn [wire_gresult client_getids].
+  - reflexivity.
+  - destruct ids; [reflexivity|]. cbn [retrieve_text]. apply first_get_err_client.
+  - unfold server_err; cbn [wire_err e_msg].
+    destruct (contains (e_msg e) (txt T SNotFound)); [reflexivity|].
+    destruct (contains (e_msg e) (txt T SFuture)); [reflexivity|].
+    destruct (contains (e_msg e) (t_ctx T)); reflexivity.
+Qed.
+
+Lemma error_text : forall T,
+  (* submit *)
+  (forall (b : backend) max sizes e, (sumN sizes <= max)%N -> sizes <> [] -> b sizes = SFail e ->
+     answer_text (direct_answer T b false sizes) = Some (e_msg e)
+     /\ exists a, answer_text (proxied_answer T max b false sizes) = Some a /\ carried T (e_msg e) a)
+  /\ (forall e s, contains (e_msg e) (t_ctx T) = false ->
+        is_sent (client_submit_err T (wire_err (server_err e))) s = contains (e_msg e) (txt T s))
+  (* retrieve: GetIDs fails *)
+  /\ (forall e get, direct_retrieve_text T (GErr e) get false = Some (e_msg e)
+        /\ exists a, proxied_retrieve_text T (GErr e) get false = Some a
+             /\ (a = e_msg e \/ (contains (e_msg e) (txt T SNotFound) = false /\ contains (e_msg e) (txt T SFuture) = false
+                                  /\ contains (e_msg e) (t_ctx T) = true /\ a = t_ctx T)))
+  (* retrieve: a Get fails *)
+  /\ (forall x ids ts get,
+        proxied_retrieve_text T (GRes (x :: ids) ts) get false
+        = option_map (get_carried T) (direct_retrieve_text T (GRes (x :: ids) ts) get false)).
+Proof.
+  intros T; split; [|split; [|split]].
+  - intros; apply submit_text; assumption.
+  - intros; apply client_submit_err_is; assumption.
+  - intros e get; split; [rewrite retrieve_text_direct; reflexivity|].
+    rewrite retrieve_text_proxied. eexists; split; [reflexivity|].
+    destruct (contains (e_msg e) (txt T SNotFound)); [left; reflexivity|].
+    destruct (contains (e_msg e) (txt T SFuture)); [left; reflexivity|].
+    destruct (contains (e_msg e) (t_ctx T)); [right; repeat split; reflexivity | left; reflexivity].
+  - intros; rewrite retrieve_text_proxied, retrieve_text_direct; reflexivity.
+Qed.
+
+(* ---- a sentinel wrapped anywhere in a context of any length ------------------------------------------------- *)
+(* the rest of the text mentions no other class *)
+Definition others_clean (T : table) (s : sentinel) (m : string) : bool :=
+  forallb (fun s' => sentinel_eqb s' s || negb (contains m (txt T s'))) (SCanceled :: switch_sentinels)
+  && (sentinel_eqb s SCanceled || negb (contains m (t_ctx T))).
+
+Lemma wrapped_wfb : forall T s pre post,
+  others_clean T s (pre ++ txt T s ++ post)%string = true -> wfb T (mk_err [s] false (pre ++ txt T s ++ post)%string) = true.
+Proof.
+  intros T s pre post H.
+  pose proof (contains_mid pre (txt T s) post) as Hs.
+  set (m := (pre ++ txt T s ++ post)%string) in *.
+  unfold others_clean, switch_sentinels in H; cbn [forallb] in H.
+  unfold wfb, switch_sentinels, is_sent; cbn [forallb e_is e_ctx e_msg existsb].
+  rewrite !andb_true_iff in H. destruct H as [(H0 & H1 & H2 & H3 & H4 & H5 & _) Hc].
+  destruct s; cbn [sentinel_eqb orb negb] in *;
+    repeat match goal with X : negb _ = true |- _ => apply negb_true_iff in X end;
+    cbn [txt] in *;
+    repeat match goal with X : contains m _ = _ |- _ => rewrite X end; rewrite ?orb_true_r; reflexivity.
+Qed.
+
+Lemma classify_same_is : forall is1 c m1 m2, classify_submit (mk_err is1 c m1) = classify_submit (mk_err is1 c m2).
+Proof. reflexivity. Qed.
+
+Lemma wrapped_anywhere : forall T, table_ok T = true -> forall s pre post,
+  let m := (pre ++ txt T s ++ post)%string in
+  contains m (txt T s) = true
+  /\ (others_clean T s m = true ->
+      classify_submit (client_submit_err T (wire_err (server_err (mk_err [s] false m)))) = classify_submit (sent_err T s)).
+Proof.
+  intros T OK s pre post m; split; [apply contains_mid|].
+  intros H; unfold server_err; rewrite classify_wire by (apply wrapped_wfb; exact H). reflexivity.
+Qed.
+
+(* retrieve: "not found" / "from the future" wrapped anywhere, any length — no cleanliness needed for "not found" *)
+Lemma wrapped_anywhere_retrieve : forall T, table_ok T = true -> forall is c pre post get,
+  ro_code (proxied_retrieve T (GErr (mk_err is c (pre ++ txt T SNotFound ++ post)%string)) get false) = StNotFound
+  /\ (contains (pre ++ txt T SFuture ++ post)%string (txt T SNotFound) = false ->
+      ro_code (proxied_retrieve T (GErr (mk_err is c (pre ++ txt T SFuture ++ post)%string)) get false) = StFuture).
+Proof.
+  intros T OK is c pre post get; rewrite !retrieve_transparent by exact OK.
+  unfold direct_retrieve, honour_g; cbn [retrieve_helper e_msg]; split.
+  - rewrite contains_mid; reflexivity.
+  - intros H; rewrite H, contains_mid; reflexivity.
 Qed.
